@@ -374,6 +374,8 @@ def main_check(plugin, tier, replay=None):
             o, _ = run_driver_robust(s.impl_cmd, [cc], 60)
             if any("bad-op" in l for l in o[0]):
                 return False
+            if hasattr(plugin, "valid_case") and not plugin.valid_case(s.name, cc, o[0], None):
+                return False
             return any(m.startswith(sig0) for m in plugin.monitor(s.name, cc, o[0]))
         small = shrink(s, c, still_fails)
         o, _ = run_driver_robust(s.impl_cmd, [small], 60)
@@ -395,6 +397,8 @@ def main_check(plugin, tier, replay=None):
                 a, _ = run_driver_robust(s.impl_cmd, [cc], 60)
                 b, _ = run_driver_robust(s.model_cmd, [cc], 120, cwd=LEAN)
                 if a[0] == b[0]:
+                    return False
+                if hasattr(plugin, "valid_case") and not plugin.valid_case(s.name, cc, a[0], b[0]):
                     return False
                 if hasattr(plugin, "alarm_filter"):
                     return plugin.alarm_filter(s.name, cc, a[0], b[0])[0]
